@@ -341,6 +341,7 @@ func (rd *HandlingDataManager) handleApplyFlows() func(http.ResponseWriter, *htt
 				"Unsupported Method for applying flows",
 				http.StatusMethodNotAllowed,
 			)
+			return
 		}
 		incomingData := stream_config.NewConfigurationPayload()
 
@@ -397,6 +398,7 @@ func (rd *HandlingDataManager) handleConfiguration() func(http.ResponseWriter, *
 				"Unsupported Method for configuration",
 				http.StatusMethodNotAllowed,
 			)
+			return
 		}
 		incomingData := stream_config.NewConfigurationPayload()
 
